@@ -325,6 +325,9 @@ def run(ctx):
                  "and a record on a chromosome that the contig list does not name at every position")
     route_cases(ctx, out, objs, contig_sets)
     checker_cases(ctx, out, objs, contig_sets)
+    from .. import bodycases
+    bodycases.compare_cases(ctx, out)
+    bodycases.translation_report(ctx, out)
     return out
 
 
